@@ -4,6 +4,7 @@ import (
 	"bytes"
 	"context"
 	"errors"
+	"github.com/twitchtv/twirp"
 	"io"
 	"net/http"
 	"strings"
@@ -392,9 +393,17 @@ func ZZ_C14_Unknown() {
 // a nested RPC failure). It is retryable at the origin; the statement requires the caller to classify it the same way.
 func ZZ_C14_OriginDeadline() {
 	var orig error = context.DeadlineExceeded
-	if rt.Fork("nested") {
+	switch rt.Choose("shape", 3) {
+	case 1:
 		orig = &zzWrap{prefix: "twirp error internal: failed to do request: ", inner: context.DeadlineExceeded}
 		rt.Reach("nested-deadline")
+	case 2:
+		// what the origin's own twirp client returns when ITS call to a third node runs into the deadline: a
+		// twirp.Error (code internal, deadline_exceeded or unavailable) that wraps context.DeadlineExceeded. It is
+		// retryable at the origin (errors.Is unwraps it) whatever code the intermediate client put on it.
+		code := []twirp.ErrorCode{twirp.Internal, twirp.DeadlineExceeded, twirp.Unavailable}[rt.Choose("relayed-code", 3)]
+		orig = twirp.WrapError(twirp.NewError(code, "failed to do request: context deadline exceeded"), context.DeadlineExceeded)
+		rt.Reach("relayed-twirp-deadline")
 	}
 	kind := zzSomeKind()
 	if _, ok := zzRoundTrip(orig, kind, false); ok {
